@@ -592,6 +592,46 @@ Proof.
   destruct (menda_round st st1 plogs nticks o HA Hpl Httl E1) as (b & _ & _ & HM1 & _).
   apply (mend_heal_ge P plogs nticks Hpl Httl os st1 st' HM1 Hnt Hstep); [cbn [length] in Hlen; lia|done].
 Qed.
+(** * a rank over the pipeline stages: view behind > everything Mend's rank can be *)
+Definition view_current (st : fstate) : bool :=
+  forallb (λ kv : N * list hentry, match d_view (f_db st) !! kv.1 with Some c => s_cci c =? cur_version kv.2 | None => true end)
+          (map_to_list (f_hist st)).
+
+Definition menda_rank (st : fstate) : nat :=
+  if view_current st then mend_rank P st else S ((3 + N.to_nat (p_ttl P + 1)) * length (members_list st)).
+
+Lemma mend_view_current st : Mend st → view_current st = true.
+Proof.
+  intros HM. unfold view_current. apply forallb_forall. intros [s h] Hin. apply elem_of_list_In, elem_of_map_to_list in Hin. cbn [fst snd].
+  destruct (md_members _ HM s h Hin) as (c & -> & Hcc & _). by apply N.eqb_eq.
+Qed.
+
+Lemma view_current_mend st : MendA st → view_current st = true → Mend st.
+Proof.
+  intros HA Hv. apply menda_mend; [done|]. intros s h c Hh Hc.
+  pose proof (forallb_map_to_list _ _ Hv s h Hh) as Hx. cbn [fst snd] in Hx. rewrite Hc in Hx. by apply N.eqb_eq.
+Qed.
+
+Lemma mend_rank_bound st : (mend_rank P st ≤ (3 + N.to_nat (p_ttl P + 1)) * length (members_list st))%nat.
+Proof.
+  unfold mend_rank. induction (members_list st) as [|m l IH]; cbn [sum_list_with length]; [lia|].
+  assert (mrank_member P st m ≤ 3 + N.to_nat (p_ttl P + 1))%nat; [|lia].
+  destruct m as [[s rid] a]. unfold mrank_member.
+  repeat match goal with |- context [if ?b then _ else _] => destruct b end; lia.
+Qed.
+
+Theorem menda_progress st st' plogs nticks o :
+  MendA st → (∀ a, plogs a = true) → (0 < nticks)%nat → 0 < p_step P → N.of_nat nticks * p_step P ≤ p_ttl P →
+  healed P st = false → healthy_round P plogs nticks o st = Some st' →
+  (menda_rank st' < menda_rank st)%nat.
+Proof.
+  intros HA Hpl Hnt Hstep Httl Hnh Hround.
+  destruct (menda_round st st' plogs nticks o HA Hpl Httl Hround) as (b & _ & _ & HM' & Hhi).
+  unfold menda_rank. rewrite (mend_view_current st' HM'). destruct (view_current st) eqn:Ev.
+  - apply (mend_progress P st st' plogs nticks o); try done. by apply view_current_mend.
+  - pose proof (mend_rank_bound st') as Hb. assert (members_list st' = members_list st) as Heq by (unfold members_list; by rewrite Hhi).
+    rewrite Heq in Hb. lia.
+Qed.
 End MendA.
 
 (** * the decidable parts of [MendA] and [Mend] (FleetRounds.menda_restb, mend_restb) are sound *)
@@ -677,7 +717,7 @@ Proof.
   - (* behind *)
     intros s h c v M M' x rest Hh Hc (Hhh & Hv & Hkind). pose proof (forallb_map_to_list _ _ Hmem s h Hh) as Hy. cbn [fst snd] in Hy.
     rewrite Hc in Hy. apply andb_true_iff in Hy as [Hy1 _]. apply orb_true_iff in Hy1 as [Hy1|Hy1].
-    { apply N.eqb_eq in Hy1. rewrite Hhh in Hy1. cbn in Hy1. lia. }
+    { apply N.eqb_eq in Hy1. rewrite Hhh in Hy1. cbn in Hy1. clear -Hy1 Hv. lia. }
     apply andb_true_iff in Hy1 as [_ Hy1]. unfold behindb in Hy1. rewrite Hhh in Hy1. cbn [fst snd] in Hy1.
     apply andb_true_iff in Hy1 as [Hy1 Hkn]. apply andb_true_iff in Hy1 as [Hy1 Hstm]. apply andb_true_iff in Hy1 as [Hy1 Hex].
     assert (Hrunx : M !! x = None → runs_nowhere st s x = true).
@@ -709,7 +749,7 @@ Proof.
     set (l := filter (λ rn : N * replica, r_tick rn.2 = 0) (map_to_list (s_reps c))) in *.
     assert (Hi1 : (r1, n1) ∈ l) by (apply elem_of_list_filter; split; [done|by apply elem_of_map_to_list]).
     assert (Hi2 : (r2, n2) ∈ l) by (apply elem_of_list_filter; split; [done|by apply elem_of_map_to_list]).
-    destruct l as [|e1 [|e2 l']]; [by apply elem_of_nil in Hi1| |cbn in Hx; lia].
+    clearbody l. clear -Hx Hi1 Hi2 Hne. destruct l as [|e1 [|e2 l']]; [by apply elem_of_nil in Hi1| |cbn [length] in Hx; lia].
     apply elem_of_list_singleton in Hi1, Hi2. congruence.
   - intros a fh s rid lr h a' Ha Hk Hh Hm. pose proof (forallb_map_to_list _ _ Hhome a fh Ha) as Hx. cbn [fst snd] in Hx.
     pose proof (forallb_map_to_list _ _ Hx (s, rid) lr Hk) as Hy. cbn [fst snd] in Hy.
